@@ -61,6 +61,8 @@ TEnv ==
        [] Rec.k = "cclosex" -> ChildCloseX(Rec.h)
        [] Rec.k = "cread" -> ChildRead(Rec.h, Rec.n)
        [] Rec.k = "eintr" -> Interrupt
+       [] Rec.k = "exitg" -> ChildExitG(Rec.h, Rec.code)
+       [] Rec.k = "ggone" -> GrandGone(Rec.h)
 
 \* does the observation logged by the code agree with what the model predicts for this return?
 ObsMatches(ret, o) ==
